@@ -422,13 +422,13 @@ func (e *ev) node(n *N) {
 	case "macro":
 		e.localMacros[n.S] = &macroDef{n: n, origin: e.name}
 	case "import":
-		tname := ToStr(e.expr(n.X))
+		tname := e.tplName(n.X)
 		if e.sh.p.Tpl(tname) == nil {
 			fail("import: template not found: " + tname)
 		}
 		e.set(n.S, Val{K: KMacros, S: tname})
 	case "from":
-		tname := ToStr(e.expr(n.X))
+		tname := e.tplName(n.X)
 		t := e.sh.p.Tpl(tname)
 		if t == nil {
 			fail("from: template not found: " + tname)
@@ -467,6 +467,15 @@ func (e *ev) node(n *N) {
 	default:
 		panic("model: unknown node kind " + n.K)
 	}
+}
+
+// tplName evaluates the template expression of an import / from tag; _self
+// names the running template.
+func (e *ev) tplName(x *E) string {
+	if x.K == "name" && x.S == "_self" {
+		return e.name
+	}
+	return ToStr(e.expr(x))
 }
 
 func collectMacros(t *Tpl) map[string]*macroDef {
@@ -824,29 +833,15 @@ func (e *ev) getAttr(c, k Val) Val {
 func (e *ev) binary(x *E) Val {
 	op := x.S
 	if op == "and" || op == "or" {
+		// and / or short-circuit: when the left operand decides, the right one
+		// is not evaluated (no callback runs, no error is raised)
 		l := e.expr(x.A[0])
 		lt := Truthy(l)
-		before := len(e.sh.calls)
-		short := (op == "and" && !lt) || (op == "or" && lt)
-		var r Val
-		func() {
-			defer func() {
-				if p := recover(); p != nil {
-					if _, isErr := p.(evalError); isErr && short {
-						leave("error under a short-circuited operand")
-					}
-					panic(p)
-				}
-			}()
-			r = e.expr(x.A[1])
-		}()
-		if short && len(e.sh.calls) != before {
-			leave("callback under a short-circuited operand")
-		}
-		if short {
+		if (op == "and" && !lt) || (op == "or" && lt) {
+			e.sh.feature("short-circuit")
 			return Bool(lt)
 		}
-		return Bool(Truthy(r))
+		return Bool(Truthy(e.expr(x.A[1])))
 	}
 	l := e.expr(x.A[0])
 	r := e.expr(x.A[1])
